@@ -59,20 +59,18 @@ SPEC = {
                     'a plugin without discovery processor neither validates nor uses the discovery part (Plugin.Outcome guards it the same way)'],
     'level_text': 'Proof: 56 closed Coq theorems. 41 property theorems over the executable model of commit / execute Plugin.ValidateObservation as wired (Roles.v, shared '
                   'with C11): the verdict is EXACTLY observer known, destination configured, role-independent well-formedness, and every field about a chain the observer '
-                  'reads (C12_commit_verdict, C12_exec_verdict: iff); 15 reject theorems, one per checked field class (merkle roots, on-ramp and off-ramp numbers, RMN '
-                  'remote config, fee components, native prices, feed prices, fee-quoter and chain-fee updates, messages, nonces, token data, costly flags, discovered '
-                  'addresses in both plugins); accept theorems for role-conformant observations (C12_accept, C12_accept_exec). Histories: for EVERY list of poller events '
-                  'interleaved with validation rounds the verdict of a round is that characterisation on the latest successfully fetched configuration alone '
-                  '(C12_history_commit_verdict, _exec_verdict; induction through the C18 snapshot theorem): a removed designation stops counting with the poll that shows '
-                  'it, a new one counts at once (C12_history_*_accepted_designated, _accept), C12_history_role_map, C12_history_scripted_polls, C12_history_empty_poll / '
-                  '_empty_rejects. Unrepaired code refuted: F04 (discovery validator never called), F05, F06, F07a (8 _unfixed_refuted theorems). Known finding F07: '
-                  'commit reports inside execute observations are not role-checked (C12_reject_commit_reports_refuted, C12_exec_except_known) - cannot be checked without '
-                  "rejecting honest oracles. Judge soundness (15 C12_judge_*): for each of the 6 sinks the executable property accepts the model's output and pins the "
-                  'verdict to the iff (at most one verdict passes). Correspondence, every run: plugin-level verdicts of both real plugins on generated observations per '
-                  'field class; 4 or 7 LONG-LIVED plugins each on its own REAL home-chain poller over a scripted CCIPHome through 5..8 role-map changes of 15 kinds, '
-                  'every verdict and every poller / ChainSupport getter judged on the latest successfully fetched configuration. No translated leaf function '
-                  '(validateObservedSequenceNumbers, validateMessageKeys, validateFChain range over Go maps and are refused by the translator). Partial: inside class F07 '
-                  'the model, like the code, accepts; mutants that only change those fields for non-designated observers are masked.',
+                  'reads (C12_commit_verdict, C12_exec_verdict: iff); 15 reject theorems, one per checked field class (roots, sequence numbers, RMN config, fees and '
+                  'prices, messages, nonces, token data, costly flags, discovered addresses); accept theorems for role-conformant observations. Histories: for EVERY list '
+                  'of poller events interleaved with validation rounds the verdict of a round is that characterisation on the latest successfully fetched configuration '
+                  'alone (C12_history_*_verdict; induction through the C18 snapshot theorem): a removed designation stops counting with the poll that shows it, a new one '
+                  'counts at once (C12_history_*_accepted_designated, _accept), C12_history_role_map, C12_history_empty_poll. Unrepaired code refuted: F04 (discovery '
+                  'validator never called), F05, F06, F07a (8 _unfixed_refuted theorems). Known finding F07: commit reports inside execute observations are not '
+                  'role-checked (C12_reject_commit_reports_refuted, C12_exec_except_known) - not checkable without rejecting honest oracles. Judge soundness (15 '
+                  "C12_judge_*): for each of the 6 sinks the executable property accepts the model's output and pins the verdict to the iff. Correspondence, every run: "
+                  'plugin-level verdicts of both real plugins on generated observations per field class; 4 or 7 LONG-LIVED plugins each on its own REAL home-chain poller '
+                  'over a scripted CCIPHome through 5..8 role-map changes of 15 kinds, every verdict and every poller / ChainSupport getter judged on the latest '
+                  'successfully fetched configuration. No translated leaf function (the validators range over Go maps: refused by the translator). Partial: inside class '
+                  'F07 the model, like the code, accepts; mutants that only change those fields for non-designated observers are masked.',
     'level_note': 'Trusted: Coq kernel, hand-written model and theorem statements, differential harness. Specific: home-chain answers (GetSupportedChainsForPeer, '
                   'GetChainConfig) come from a fake that mirrors internal/reader/home_chain.go in the per-world parts; in the history parts the home chain is the real '
                   'poller and only the CCIPHome contract reader below it is scripted (the harness waits for two fetch attempts per poller after every change; scripted '
